@@ -781,7 +781,30 @@ void gt_exp(gt_t c, const gt_t a, const bn_t b) {
 	}
 
 #if FP_PRIME == 1536 || FP_PRIME == 544
-	RLC_CAT(RLC_GT_LOWER, exp_cyc)(c, a, b);
+	if (bn_bits(b) > RLC_FP_BITS) {
+		/* The recoding buffer of the cyclotomic exponentiation holds
+		 * RLC_FP_BITS + 1 digits: reduce longer exponents modulo the group
+		 * order first, as the Frobenius-based branches below do. */
+		bn_t n, _b;
+
+		bn_null(n);
+		bn_null(_b);
+
+		RLC_TRY {
+			bn_new(n);
+			bn_new(_b);
+			gt_get_ord(n);
+			bn_mod(_b, b, n);
+			RLC_CAT(RLC_GT_LOWER, exp_cyc)(c, a, _b);
+		} RLC_CATCH_ANY {
+			RLC_THROW(ERR_CAUGHT);
+		} RLC_FINALLY {
+			bn_free(n);
+			bn_free(_b);
+		}
+	} else {
+		RLC_CAT(RLC_GT_LOWER, exp_cyc)(c, a, b);
+	}
 #elif FP_PRIME < 1536
 	if (ep_curve_embed() == 18) {
 		/* A variable-time GLS-SAC is actually faster due to shorter table. */
